@@ -89,9 +89,9 @@ fn spec(id: &str) -> Option<Spec> {
             assumptions: BASE_ASSUME,
         },
         "C08" => Spec {
-            run: runners_vec::run_c08,
+            run: runners_thr::run_c08,
             level: "exploration",
-            rule: "history, then drop of the ObservableVector, then every stream drained to None. Non-trivial = a stream ended after having been pending (woken by the drop), behind, lagged or in the middle of a batch; distinct = hash of the history.",
+            rule: "history, then drop of the ObservableVector, then every stream drained to None; plus a cross-thread variant (vector on one thread, every subscriber stream on its own park/unpark thread, hook-injected yields) whose verdict is taken at join. Non-trivial = a stream ended after having been pending (woken by the drop), behind, lagged or in the middle of a batch; distinct = hash of the history.",
             assumptions: BASE_ASSUME,
         },
         "C09" => Spec {
